@@ -9,7 +9,7 @@
    and, below, the per-family conjunctions quoted by Properties/C08.v. *)
 From Coq Require Import ZArith List Bool.
 From AQ Require Export Evm.OpsModel Evm.OpsSpec Evm.OpsTableSpec
-  Evm.OpsProofsArith Evm.OpsProofsGas Evm.OpsProofsJumpdest Evm.OpsProofsTable Evm.OpsProofsMem Evm.OpsProofsEnv Evm.OpsProofsGasState Evm.OpsProofsNarrow.
+  Evm.OpsProofsArith Evm.OpsProofsGas Evm.OpsProofsJumpdest Evm.OpsProofsTable Evm.OpsProofsMem Evm.OpsProofsEnv Evm.OpsProofsGasState Evm.OpsProofsNarrow Evm.OpsProofsGasStep.
 Import ListNotations.
 Local Open Scope Z_scope.
 
@@ -231,3 +231,45 @@ Theorem narrowing_all :
   memoryCall inOff inSize retOff retSize =
   Z.max (if retSize =? 0 then 0 else retOff + retSize) (if inSize =? 0 then 0 else inOff + inSize)).
 Proof. exact (conj narrow_id (conj narrow_high_bits_differ (conj op_BLOCKHASH_spec (conj op_BLOCKHASH_high_bits (conj op_BYTE_high_bits (conj op_SHL_high_bits (conj op_SHR_high_bits (conj op_SIGNEXTEND_high_bits memoryCall_spec)))))))). Qed.
+
+(* the whole dynamic-gas step (operands -> memory size -> gas function) = Yellow-Paper cost on the domain memory < 2^32 words *)
+Theorem step_gas_all :
+  (forall base w0 off len, 0 <= base < 2^32 -> 0 <= w0 < 2^32 -> word off -> word len ->
+  Mexp w0 off len < 2^32 ->
+  step_gas_base base w0 off len = Ok (mem_fee w0 off len + base, Cmem (Mexp w0 off len))) /\
+  (forall w0 off, 0 <= w0 < 2^32 -> word off -> Mexp w0 off 32 < 2^32 ->
+  match run_memorySize (calcMemSize off 32) with
+  | Ok ms => gasMLoad (32 * w0) (Cmem w0) ms | Err e => Err e | Panic => Panic end
+  = Ok (mem_fee w0 off 32 + 3, Cmem (Mexp w0 off 32))) /\
+  (forall w0 off, 0 <= w0 < 2^32 -> word off -> Mexp w0 off 32 < 2^32 ->
+  match run_memorySize (calcMemSize off 32) with
+  | Ok ms => gasMStore (32 * w0) (Cmem w0) ms | Err e => Err e | Panic => Panic end
+  = Ok (mem_fee w0 off 32 + 3, Cmem (Mexp w0 off 32))) /\
+  (forall w0 off, 0 <= w0 < 2^32 -> word off -> Mexp w0 off 1 < 2^32 ->
+  match run_memorySize (calcMemSize off 1) with
+  | Ok ms => gasMStore8 (32 * w0) (Cmem w0) ms | Err e => Err e | Panic => Panic end
+  = Ok (mem_fee w0 off 1 + 3, Cmem (Mexp w0 off 1))) /\
+  (forall w0 off len, 0 <= w0 < 2^32 -> word off -> word len -> Mexp w0 off len < 2^32 ->
+  match run_memorySize (calcMemSize off len) with
+  | Ok ms => gasCreate (32 * w0) (Cmem w0) ms | Err e => Err e | Panic => Panic end
+  = Ok (mem_fee w0 off len + 32000, Cmem (Mexp w0 off len))) /\
+  (forall w0 off len, 0 <= w0 < 2^32 -> word off -> word len -> Mexp w0 off len < 2^32 ->
+  match run_memorySize (calcMemSize off len) with
+  | Ok ms => gasReturn (32 * w0) (Cmem w0) ms | Err e => Err e | Panic => Panic end
+  = Ok (mem_fee w0 off len, Cmem (Mexp w0 off len))) /\
+  (forall n w0 off len, 0 <= n <= 4 -> 0 <= w0 < 2^32 -> word off -> word len ->
+  Mexp w0 off len < 2^32 ->
+  step_gas_log n w0 off len = Ok (mem_fee w0 off len + G_log n len, Cmem (Mexp w0 off len))) /\
+  (forall w0 off len, 0 <= w0 < 2^32 -> word off -> word len -> Mexp w0 off len < 2^32 ->
+  match run_memorySize (calcMemSize off len) with
+  | Ok ms => gasSha3 (32 * w0) (Cmem w0) ms len | Err e => Err e | Panic => Panic end
+  = Ok (mem_fee w0 off len + G_sha3 len, Cmem (Mexp w0 off len))) /\
+  (forall w0 off len, 0 <= w0 < 2^32 -> word off -> word len -> Mexp w0 off len < 2^32 ->
+  match run_memorySize (calcMemSize off len) with
+  | Ok ms => gasCallDataCopy (32 * w0) (Cmem w0) ms len | Err e => Err e | Panic => Panic end
+  = Ok (mem_fee w0 off len + G_copy len, Cmem (Mexp w0 off len))) /\
+  (gasCodeCopy = gasCallDataCopy /\ gasReturnDataCopy = gasCallDataCopy).
+Proof. exact (conj step_gas_base_spec (conj step_gas_MLOAD (conj step_gas_MSTORE (conj step_gas_MSTORE8 (conj step_gas_CREATE (conj step_gas_RETURN (conj step_gas_log_spec (conj step_gas_SHA3 (conj step_gas_COPY gasCopy_same))))))))). Qed.
+
+
+
